@@ -24,6 +24,20 @@ func (k Keeper) UpdateRewardPool(ctx context.Context, gas []*goattypes.GasReques
 		return err
 	}
 
+	// amounts are wei of tokens whose supply is far below 2^128; a larger value can only come from a broken
+	// execution layer and would overflow the 256-bit pools and accrued rewards when distributed in BeginBlock
+	const maxAmountBits = 128
+	for _, revenue := range gas {
+		if revenue.Amount.BitLen() > maxAmountBits {
+			return errorsmod.Wrapf(sdkerrors.ErrInvalidRequest, "gas revenue too large: %s", revenue.Amount)
+		}
+	}
+	for _, grant := range grants {
+		if grant.Amount.BitLen() > maxAmountBits {
+			return errorsmod.Wrapf(sdkerrors.ErrInvalidRequest, "grant too large: %s", grant.Amount)
+		}
+	}
+
 	for _, revenue := range gas {
 		if revenue.Amount.Sign() > 0 {
 			pool.Gas = pool.Gas.Add(math.NewIntFromBigIntMut(revenue.Amount))
